@@ -33,6 +33,7 @@ else:
     tags = "test verif"
     if re.search(r"^//go:build !test", src, re.M):
         tags = "verif"          # a demonstration for the production build
+    tags = os.environ.get("DEMO_TAGS", tags)
     dst = os.path.join(wt, pkg, "zz_demo%s_test.go" % i)
     def rundemo():
         shutil.copy(demo, dst)
